@@ -5,6 +5,7 @@ import z3
 
 from .terms import Term, mask
 from .mdd import TRUE, FULL, mask_ranges
+from .lia import LiaSolver, LiaUnsupported
 
 
 class Solver:
@@ -20,6 +21,9 @@ class Solver:
         self.bytevars = {}   # mdd order -> z3 var
         self.tabfuncs = {}
         self.cache = {}
+        self.lia = LiaSolver(store, timeout_ms=timeout_ms, seed=seed)
+        self.last = 'bv'
+        self.use_lia = True
 
     # ------------------------------------------------------------------
     def zvar(self, v):
@@ -251,6 +255,27 @@ class Solver:
         for cnd in conds:
             if cnd is False:
                 return 'unsat'
+        if self.use_lia:
+            hard = False
+            for e in tuple(extras) + tuple(conds):
+                if e.__class__ is Term and e.hard:
+                    hard = True
+                    break
+            if hard:
+                try:
+                    r = self.lia.check(pc, extras, conds)
+                    self.stats['solver_s'] += 0  # accounted in lia.stats
+                    self.stats.setdefault('lia_' + r, 0)
+                    self.stats['lia_' + r] += 1
+                    if r != 'unknown':
+                        self.last = 'lia'
+                        self.last_model = self.lia.last_model
+                        self.cache[key] = r
+                        return r
+                except LiaUnsupported as ex:
+                    self.stats.setdefault('lia_unsupported', 0)
+                    self.stats['lia_unsupported'] += 1
+        self.last = 'bv'
         fs = []
         if pc is not TRUE:
             fs.append(self.mdd_z3(pc))
@@ -280,6 +305,8 @@ class Solver:
         """value of a term (or var) in the last model, as int / bool"""
         if t.__class__ is not Term:
             return t
+        if self.last == 'lia':
+            return self.store.evaluate(t, self.lia.model_assign())
         z = self.last_model.eval(self.to_z3(t), model_completion=True)
         if t.w == 0:
             return z3.is_true(z)
@@ -287,6 +314,8 @@ class Solver:
 
     def model_assign(self):
         """var idx -> int for all vars created so far"""
+        if self.last == 'lia':
+            return self.lia.model_assign()
         out = {}
         for v in self.store.vars:
             z = self.zvar(v)
